@@ -576,6 +576,8 @@ type rawReq struct {
 	ack, req int64
 	ans      int  // what the client application would answer
 	bad      bool // the request exceeds the limits: the client must report an error and not reply
+	observe  bool // forbidden by the network specification but not by the property statement:
+	// what the client does is recorded as an outcome label in the log, never a finding
 }
 
 func rawIds(b bool, ack, req int64) []byte {
@@ -611,8 +613,15 @@ func mirrorScenario(name string, script []rawReq) e1lib.Scenario {
 			Mode: protocol.ProtocolModeNodeToNode, Role: protocol.ProtocolRoleClient, Version: 14}, &ccfg)
 		_, cDone := owner("cli", cerrs, cmux)
 		rdDone := make(chan struct{})
+		nAnswers := 0 // messages other than Init seen from the client
 		rt.Go("rawsrv reader", func() {
-			s2lib.WireReader(peer, nil, func(id uint16, msg []byte) { rt.Log("wire C>S %s", describe(msg)) })
+			s2lib.WireReader(peer, nil, func(id uint16, msg []byte) {
+				d := describe(msg)
+				if d != "init" {
+					nAnswers++
+				}
+				rt.Log("wire C>S %s", d)
+			})
 			rt.Close("h:rdDone", rdDone)
 		})
 		cli.Start()
@@ -627,7 +636,15 @@ func mirrorScenario(name string, script []rawReq) e1lib.Scenario {
 				break
 			}
 			// let everything that can happen happen (virtual time moves only when nothing can run)
+			before := nAnswers
 			vtime.Sleep(10 * time.Millisecond)
+			if q.observe {
+				if nAnswers > before {
+					rt.Log("outcome %s: complied", q.label)
+				} else {
+					rt.Log("outcome %s: not served", q.label)
+				}
+			}
 		}
 		rt.Log("quiet")
 		peer.Close()
@@ -663,7 +680,7 @@ func mirrorScenario(name string, script []rawReq) e1lib.Scenario {
 		}
 		firstBad := -1
 		for i, q := range script {
-			if q.bad {
+			if q.bad || q.observe {
 				firstBad = i
 				break
 			}
@@ -671,6 +688,8 @@ func mirrorScenario(name string, script []rawReq) e1lib.Scenario {
 		for i, q := range script {
 			switch {
 			case firstBad >= 0 && i > firstBad:
+			case q.observe:
+				// recorded in the log ("outcome ..."), nothing demanded
 			case q.bad:
 				if replies[i] != "" {
 					out = append(out, rt.Finding{Key: "c24:client-complies|" + q.label, What: fmt.Sprintf("the real Client answered %q to the request %s(blocking=%t ack=%d req=%d) instead of reporting a protocol error; log %v", replies[i], q.label, q.blocking, q.ack, q.req, r.Logs)})
@@ -699,7 +718,12 @@ func mirrorScenario(name string, script []rawReq) e1lib.Scenario {
 		}
 		return out
 	}
-	return e1lib.Scenario{Name: "mirror|" + name, Body: body, Check: check, Cfg: rt.Config{Horizon: time.Hour}}
+	full := "mirror|" + name
+	if strings.HasPrefix(name, "observe:") {
+		// sorts first, so that the evidence samples (first 12 scenarios) show the outcome labels
+		full = "0observe|" + strings.TrimPrefix(name, "observe:")
+	}
+	return e1lib.Scenario{Name: full, Body: body, Check: check, Cfg: rt.Config{Horizon: time.Hour}}
 }
 
 func mirrors() []e1lib.Scenario {
@@ -717,28 +741,14 @@ func mirrors() []e1lib.Scenario {
 		mirrorScenario("limit:ack=-1", []rawReq{{label: "ack=-1", ack: -1, req: 1, ans: 1, bad: true}}),
 		mirrorScenario("limit:b,req=65536", []rawReq{{label: "b,req=65536", blocking: true, req: 65536, ans: 1, bad: true}}),
 		mirrorScenario("limit:valid,then-req=65536", []rawReq{ok2, {label: "req=65536", ack: 2, req: 65536, ans: 1, bad: true}}),
-		// acknowledging more than was ever sent
-		mirrorScenario("window:first-ack=1", []rawReq{{label: "ack>outstanding", ack: 1, req: 1, ans: 1, bad: true}}),
-		mirrorScenario("window:nb(0,2)>2,ack=3", []rawReq{ok2, {label: "ack>outstanding", ack: 3, req: 1, ans: 1, bad: true}}),
-		mirrorScenario("window:nb(0,2)>2,b,ack=65535", []rawReq{ok2, {label: "ack>outstanding", blocking: true, ack: 65535, req: 1, ans: 1, bad: true}}),
+		// observations (never findings): the network specification forbids these requests, the
+		// property statement does not ask the outbound side to police them
+		mirrorScenario("observe:first-ack=1", []rawReq{{label: "ack>outstanding", ack: 1, req: 1, ans: 1, observe: true}}),
+		mirrorScenario("observe:nb(0,2)>2,ack=3", []rawReq{ok2, {label: "ack>outstanding", ack: 3, req: 1, ans: 1, observe: true}}),
+		mirrorScenario("observe:nb(0,2)>2,b,ack=65535", []rawReq{ok2, {label: "ack>outstanding", blocking: true, ack: 65535, req: 1, ans: 1, observe: true}}),
+		mirrorScenario("observe:b(0,0)", []rawReq{{label: "blocking-req=0", blocking: true, ack: 0, req: 0, ans: 0, observe: true}}),
+		mirrorScenario("observe:nb(0,0)", []rawReq{{label: "nonblocking-ack=0-req=0", ack: 0, req: 0, ans: 0, observe: true}}),
 	}
-}
-
-// mirrorsInfo are misbehaviours the specification forbids but the property statement does
-// not list (req = 0 in a blocking request); observed and logged, never a finding.
-func mirrorsInfo() []e1lib.Scenario {
-	s := mirrorScenario("info:b(0,0)", []rawReq{{label: "blocking-req=0", blocking: true, ack: 0, req: 0, ans: 0, bad: true}})
-	inner := s.Check
-	s.Check = func(r *rt.Result) []rt.Finding {
-		var out []rt.Finding
-		for _, f := range inner(r) {
-			if !strings.HasPrefix(f.Key, "c24:client-complies|") {
-				out = append(out, f)
-			}
-		}
-		return out
-	}
-	return []e1lib.Scenario{s}
 }
 
 // ---- scenario generation ---------------------------------------------------------------
@@ -845,7 +855,7 @@ func TestC24(t *testing.T) {
 			}
 			scs = append(scs, s)
 		}
-		for _, s := range append(mirrors(), mirrorsInfo()...) {
+		for _, s := range mirrors() {
 			s.MinB, s.MaxB, s.Budget = 1, 1, 30*time.Second
 			scs = append(scs, s)
 		}
